@@ -93,14 +93,17 @@ def build(ctx):
     def pp_curves():
         every = tm.var("every", tm.I)
         last = None
-        for rescale in (False, True):
-            for given_ax in (True, False):
+        xmax = tm.var("x_max")
+        for rescale, given_ax, with_xmax in ((a_, b_, c_) for a_ in (False, True) for b_ in (True, False) for c_ in (False, True)):
+            if True:
                 holder = {}
 
-                def mk(rescale=rescale, given_ax=given_ax):
+                def mk(rescale=rescale, given_ax=given_ax, with_xmax=with_xmax):
                     r = sim_reservoir(ctx)
                     holder["ax"] = AxesV(None) if False else None
                     kw = {"every": every, "rescale": rescale}
+                    if with_xmax:
+                        kw["x_max"] = xmax   # the right-hand axis limit: node positions must not depend on it
                     if given_ax:
                         ax = AxesV.__new__(AxesV)
                         ax.id = -1
@@ -108,7 +111,7 @@ def build(ctx):
                         kw["ax"] = ax
                     return [r], kw
 
-                outs = ctx.engine.run_paths(ctx.engine.func(PLOT + "plot_pseudopressure"), mk, pc=[tm.ge(nt, tm.const(2)), tm.ge(nx, tm.const(3)), tm.ge(every, tm.const(1))])
+                outs = ctx.engine.run_paths(ctx.engine.func(PLOT + "plot_pseudopressure"), mk, pc=[tm.ge(nt, tm.const(2)), tm.ge(nx, tm.const(3)), tm.ge(every, tm.const(1)), tm.gt(xmax, tm.rconst(0))])
                 if len(outs) != 1 or outs[0].kind != "return":
                     return be.Verdict(be.REFUTED, "SMT", witness={}, detail=f"plot_pseudopressure: {[(o.kind, o.value) for o in outs]}")
                 o = outs[0]
@@ -129,9 +132,9 @@ def build(ctx):
                 want_y = PP(i, j) if not rescale else (PP(i, j) - PP(i, tm.const(0))) / (PP(tm.const(0), nx - 1) - PP(i, tm.const(0)))
                 goal = tm.land(tm.iff(e["guard"], tm.eq(tm.mod(i, every), tm.const(0))),
                                tm.implies(resv.inr(j, nx), tm.land(tm.eq(tm.mul(xj, tm.toreal(nx)), tm.toreal(j + 1)), tm.eq(yj, want_y))))
-                v = be.prove_smt(goal, list(o.pc) + [tm.ge(every, tm.const(1)), resv.inr(i, nt)], timeout_ms=20000, want={"i": i, "every": every, "j": j, "nx": nx})
+                v = be.prove_smt(goal, list(o.pc) + [tm.ge(every, tm.const(1)), resv.inr(i, nt)], timeout_ms=20000, want={"i": i, "every": every, "j": j, "nx": nx, "x_max": xmax})
                 if v.status != be.PROVED:
-                    v.detail = f"[rescale={rescale}] a profile is drawn iff i % every == 0, against x_j = (j+1)/nx, carrying the (rescaled) profile: " + v.detail
+                    v.detail = f"[rescale={rescale}{', x_max given' if with_xmax else ''}] a profile is drawn iff i % every == 0, against x_j = (j+1)/nx, carrying the (rescaled) profile: " + v.detail
                     return with_models(v, o)
                 if e["x"].shape[0] is not nx or e["y"].shape[0] is not nx:
                     if be.prove_smt(tm.land(tm.eq(e["x"].shape[0], nx), tm.eq(e["y"].shape[0], nx)), list(o.pc)).status != be.PROVED:
